@@ -216,9 +216,10 @@ theorem transfer_no_empty (accts : List Addr) (hn : accts.Nodup) (g : Cfg) (c c2
       · unfold NoEmptyAt at *; rw [hoth a h1 h2]; exact ha
 
 /-- the arithmetic facts of a successful transfer, in the notation of `value_core`
-    (T, S = validator before; sh = shares sent; r = shares received) -/
+    (T, S = validator before; sh = shares sent; r = shares received).  `hTpos`: the validator has tokens. -/
 theorem transfer_arith (accts : List Addr) (hn : accts.Nodup) (g : Cfg) (c c2 : VSt) (frm to : Addr) (sh r : Dec)
     (hf : frm ∈ accts) (hne : frm ≠ to) (hwf : WF accts c) (hrate : SaneRate c)
+    (hTpos : ∀ v, c.val = some v → 0 < v.tokens)
     (h : transfer g c frm to sh = .ok (c2, r)) :
     ∃ v v3, c.val = some v ∧ c2.val = some v3 ∧ v3.tokens = v.tokens ∧ v3.shares.m = v.shares.m - sh.m + r.m ∧
       0 < v.shares.m ∧ 0 < sh.m ∧ sh.m ≤ dm c frm ∧ dm c frm ≤ v.shares.m ∧ 0 ≤ r.m ∧ 0 ≤ v.tokens ∧
@@ -228,60 +229,88 @@ theorem transfer_arith (accts : List Addr) (hn : accts.Nodup) (g : Cfg) (c c2 : 
           r.m * (v.tokens - amt) ≤ (v.shares.m - sh.m) * amt ∧
           (v.shares.m - sh.m) * amt < (r.m + 1) * (v.tokens - amt) ∧
           2 * (v.tokens - amt - 1) < v.shares.m - sh.m)) := by
-  obtain ⟨x, v, v2, v3, amt, hx, hv, hpos, hle, hred, hg, hrm, hrz, hinv, hadd, hval2, hdf, hdt, hoth, -⟩ :=
+  obtain ⟨x, v, v2, amt, hx, hv, hpos, hle, hred, hg, hrm, hdf, hoth, -, -, -, -, -, hcase⟩ :=
     transfer_effect g c c2 frm to sh r hne h
   obtain ⟨w1, w2, w3⟩ := hwf
   obtain ⟨hT, hS⟩ := w3 v hv
+  have hT1 := hTpos v hv
   have hxS : x.m ≤ v.shares.m := by
     rw [hS]; have := le_dsum accts c.del w2 frm hf; rw [hx] at this; exact this
   have hSpos : 0 < v.shares.m := by omega
   have hrt := hrate v hv
-  obtain ⟨t1, t2, -⟩ := xfer_val v v2 v3 sh r amt hrm hadd
-  obtain ⟨a1, -, -, -, -, a6⟩ := removeDelShares_spec v v2 sh amt hrm
-  obtain ⟨b1, b2, -, -, -, -, b7⟩ := addTokensFromDel_spec v2 v3 amt r hadd
+  obtain ⟨a1, a2, a3, a4, a5, a6⟩ := removeDelShares_spec v v2 sh amt hrm
   have hdmf : dm c frm = x.m := by unfold dm; rw [hx]
-  refine ⟨v, v3, hv, hval2, t1, t2, hSpos, hpos, by rw [hdmf]; exact hle, by rw [hdmf]; exact hxS, ?_, hT, ?_⟩
-  · rcases b7 with ⟨hs0, e⟩ | ⟨hs2, ht2, e⟩
-    · rcases a6 with ⟨-, e1, -⟩ | ⟨hne2, -, -, -, -⟩
-      · rw [e, e1]; exact Int.mul_nonneg hT (by decide)
-      · exact absurd hs0 hne2
-    · rw [e]
-      rcases a6 with ⟨e0, -, -⟩ | ⟨hne2, -, e1, e2, e3⟩
-      · exact absurd e0 hs2
-      · rw [tfs_trunc v sh hT hSpos (by omega)] at e1
-        have := tokOut_nonneg v.tokens v.shares.m sh.m hT hSpos (by omega)
-        exact tquo_nonneg _ _ (Int.mul_nonneg (by omega) (by omega)) e3
-  · rcases a6 with ⟨e0, e1, e2⟩ | ⟨hne2, -, e1, e2, e3⟩
-    · left
-      rcases b7 with ⟨-, e⟩ | ⟨hs2, -, -⟩
-      · exact ⟨by omega, by rw [e, e1]⟩
-      · exact absurd e0 hs2
-    · right
-      rcases b7 with ⟨hs2, -⟩ | ⟨hs2, ht2, e⟩
-      · exact absurd hs2 hne2
-      · rw [tfs_trunc v sh hT hSpos (by omega)] at e1
-        have hlo := tokOut_lower v.tokens v.shares.m sh.m hT hSpos (by omega)
-        have hup := tokOut_upper v.tokens v.shares.m sh.m hT hSpos (by omega)
-        have ha0 := tokOut_nonneg v.tokens v.shares.m sh.m hT hSpos (by omega)
-        rw [← e1] at hlo hup ha0
-        have hS2 : 1 ≤ v2.shares.m := by omega
-        have hT2 : 1 ≤ v2.tokens := by omega
-        have hTpos : 0 < v.tokens := by omega
-        have k1 : v.shares.m * (v2.tokens - 1) < v2.shares.m * v.tokens := by
+  -- facts about the intermediate validator when some shares remain
+  have hmid : v2.shares.m ≠ 0 → amt = tokOut v.tokens v.shares.m sh.m ∧ v2.tokens = v.tokens - amt ∧ 0 ≤ v2.tokens ∧
+      2 * (v2.tokens - 1) < v2.shares.m := by
+    intro hne2
+    rcases a6 with ⟨e0, -, -⟩ | ⟨-, -, e1, e2, e3⟩
+    · exact absurd e0 hne2
+    · rw [tfs_trunc v sh hT hSpos (by omega)] at e1
+      have hl := tokOut_lower v.tokens v.shares.m sh.m hT hSpos (by omega)
+      rw [← e1] at hl
+      refine ⟨e1, e2, e3, ?_⟩
+      rcases Int.lt_or_le v2.tokens 1 with hlt | hge
+      · omega
+      · have k1 : v.shares.m * (v2.tokens - 1) < v2.shares.m * v.tokens := by
           rw [a1, e2]; grind
         have k2 : 2 * v.tokens * (v2.tokens - 1) ≤ v.shares.m * (v2.tokens - 1) :=
           Int.mul_le_mul_of_nonneg_right hrt (by omega)
         have k3 : v.tokens * (2 * (v2.tokens - 1)) < v.tokens * v2.shares.m := by grind
-        have k4 : 2 * (v2.tokens - 1) < v2.shares.m := Int.lt_of_mul_lt_mul_left k3 (by omega)
+        exact Int.lt_of_mul_lt_mul_left k3 (by omega)
+  rcases hcase with ⟨hs, ha0, hr0, hto, hval2⟩ | ⟨hns, v3, hinv, hadd, hval2, hdt⟩
+  · -- repaired code, nothing unbonded: amt = 0, r = 0, the validator keeps its tokens
+    have hne2 : v2.shares.m ≠ 0 := by
+      intro e0
+      rcases a6 with ⟨-, e1, -⟩ | ⟨hne2, -, -, -, -⟩
+      · omega
+      · exact hne2 e0
+    obtain ⟨m1, m2, m3, m4⟩ := hmid hne2
+    have hvv : c2.val = some v2 := by
+      rw [hval2, if_neg (fun hh => hne2 hh.1)]
+    have hrm0 : r.m = 0 := by rw [hr0]; rfl
+    have hlo := tokOut_lower v.tokens v.shares.m sh.m hT hSpos (by omega)
+    have hup := tokOut_upper v.tokens v.shares.m sh.m hT hSpos (by omega)
+    rw [← m1, ha0] at hlo hup
+    refine ⟨v, v2, hv, hvv, by omega, by omega, hSpos, hpos, by rw [hdmf]; exact hle, by rw [hdmf]; exact hxS,
+      by omega, hT, Or.inr ⟨0, by omega, by omega, by omega, hlo, hup, ?_, ?_, ?_⟩⟩
+    · rw [hrm0]; simp
+    · rw [hrm0]; simp; omega
+    · rw [a1, m2, ha0] at m4; simpa using m4
+  · obtain ⟨t1, t2, -⟩ := xfer_val v v2 v3 sh r amt hrm hadd
+    obtain ⟨b1, b2, -, -, -, -, b7⟩ := addTokensFromDel_spec v2 v3 amt r hadd
+    refine ⟨v, v3, hv, hval2, t1, t2, hSpos, hpos, by rw [hdmf]; exact hle, by rw [hdmf]; exact hxS, ?_, hT, ?_⟩
+    · rcases b7 with ⟨hs0, e⟩ | ⟨hs2, ht2, e⟩
+      · rcases a6 with ⟨-, e1, -⟩ | ⟨hne2, -, -, -, -⟩
+        · rw [e, e1]; exact Int.mul_nonneg hT (by decide)
+        · exact absurd hs0 hne2
+      · rw [e]
+        obtain ⟨m1, m2, m3, -⟩ := hmid hs2
+        have := tokOut_nonneg v.tokens v.shares.m sh.m hT hSpos (by omega)
+        exact tquo_nonneg _ _ (Int.mul_nonneg (by omega) (by omega)) m3
+    · rcases b7 with ⟨hs0, e⟩ | ⟨hs2, ht2, e⟩
+      · left
+        rcases a6 with ⟨e0, e1, e2⟩ | ⟨hne2, -, -, -, -⟩
+        · exact ⟨by omega, by rw [e, e1]⟩
+        · exact absurd hs0 hne2
+      · right
+        obtain ⟨m1, m2, m3, m4⟩ := hmid hs2
+        have hlo := tokOut_lower v.tokens v.shares.m sh.m hT hSpos (by omega)
+        have hup := tokOut_upper v.tokens v.shares.m sh.m hT hSpos (by omega)
+        have ha0 := tokOut_nonneg v.tokens v.shares.m sh.m hT hSpos (by omega)
+        rw [← m1] at hlo hup ha0
+        have hS2 : 1 ≤ v2.shares.m := by omega
+        have hT2 : 1 ≤ v2.tokens := by omega
         have hq : r.m = v2.shares.m * amt / v2.tokens := by
           rw [e, tquo_nonneg_eq _ _ (Int.mul_nonneg (by omega) (by omega)) (by omega)]
         have q1 : r.m * v2.tokens ≤ v2.shares.m * amt := by rw [hq]; exact Int.ediv_mul_le _ (by omega)
         have q2 : v2.shares.m * amt < (r.m + 1) * v2.tokens := by
           rw [hq]; exact Int.lt_ediv_add_one_mul_self _ (by omega)
         refine ⟨amt, by omega, ha0, by omega, hlo, hup, ?_, ?_, ?_⟩
-        · rw [a1, e2] at q1; exact q1
-        · rw [a1, e2] at q2; exact q2
-        · rw [a1, e2] at k4; exact k4
+        · rw [a1, m2] at q1; exact q1
+        · rw [a1, m2] at q2; exact q2
+        · rw [a1, m2] at m4; exact m4
+
 theorem trunc_frac (r : Dec) (h : 0 ≤ r.m) : 0 ≤ r.m - r.truncateInt * P ∧ r.m - r.truncateInt * P ≤ P - 1 := by
   unfold Dec.truncateInt; rw [chopTrunc_nonneg_eq _ h]
   have h1 := Int.ediv_mul_le r.m (by decide : P ≠ 0)
@@ -292,13 +321,14 @@ theorem trunc_frac (r : Dec) (h : 0 ≤ r.m) : 0 ≤ r.m - r.truncateInt * P ∧
 /-- value of the holder's stake across a mint that mints ⌊received shares⌋ (the repaired code) -/
 theorem mint_value_fixed (accts : List Addr) (hn : accts.Nodup) (g : Cfg) (hg : g.mintReceived = true) (M : Addr)
     (c c' : VSt) (d : Addr) (amount der : Int) (hM : M ∈ accts) (hd : d ∈ accts) (hne : d ≠ M)
-    (hwf : WF accts c) (hrate : SaneRate c) (hbal : 0 ≤ c.bal d) (hH : dm c d + c.bal d * P ≤ sharesOf c)
+    (hwf : WF accts c) (hrate : SaneRate c) (hTpos : ∀ v, c.val = some v → 0 < v.tokens)
+    (hbal : 0 ≤ c.bal d) (hH : dm c d + c.bal d * P ≤ sharesOf c)
     (hpost : ∀ v', c'.val = some v' → v'.tokens * P ≤ v'.shares.m)
     (h : mint g M c d true amount = .ok (c', der)) : ValueWithinTwo c c' d := by
   obtain ⟨-, shares, c1, r, -, ht, hder, e1, e2, e3, e4, e5, e6⟩ := mint_effect g M c c' d amount der h
   rw [hg] at hder; simp only [ite_true] at hder
   obtain ⟨v, v3, hv, hv3, t1, t2, hS, hsh, hshd, hdS, hr0, hT, hcase⟩ :=
-    transfer_arith accts hn g c c1 d M shares r hd hne hwf hrate ht
+    transfer_arith accts hn g c c1 d M shares r hd hne hwf hrate hTpos ht
   obtain ⟨-, -, -, -, hdm, -, b1, -, -⟩ := transfer_inv accts hn g c c1 d M shares r hd hM hne hwf ht
   have hd1 : dm c' d = dm c d - shares.m := by
     have : dm c' d = dm c1 d := by unfold dm; rw [e2]
@@ -346,7 +376,8 @@ theorem mint_value_fixed (accts : List Addr) (hn : accts.Nodup) (g : Cfg) (hg : 
 /-- value of the holder's stake across a burn (the code as it is and the repaired code alike) -/
 theorem burn_value (accts : List Addr) (hn : accts.Nodup) (g : Cfg) (M : Addr)
     (c c' : VSt) (d : Addr) (amount : Int) (r : Dec) (hM : M ∈ accts) (hd : d ∈ accts) (hne : d ≠ M)
-    (hwf : WF accts c) (hrate : SaneRate c) (hH : dm c d + c.bal d * P ≤ sharesOf c)
+    (hwf : WF accts c) (hrate : SaneRate c) (hTpos : ∀ v, c.val = some v → 0 < v.tokens)
+    (hH : dm c d + c.bal d * P ≤ sharesOf c)
     (hpost : ∀ v', c'.val = some v' → v'.tokens ≤ v'.shares.m)
     (h : burn g M c d amount = .ok (c', r)) : ValueWithinTwo c c' d := by
   obtain ⟨h0, hbal, ht⟩ := burn_effect g M c c' d amount r h
@@ -354,7 +385,7 @@ theorem burn_value (accts : List Addr) (hn : accts.Nodup) (g : Cfg) (M : Addr)
   have hwf0 : WF accts { c with bal := updI c.bal d (c.bal d - amount), supply := c.supply - amount } := hwf
   have hrate0 : SaneRate { c with bal := updI c.bal d (c.bal d - amount), supply := c.supply - amount } := hrate
   obtain ⟨v, v3, hv, hv3, t1, t2, hS, hsh, hshd, hdS, hr0, hT, hcase⟩ :=
-    transfer_arith accts hn g _ c' M d _ r hM hne' hwf0 hrate0 ht
+    transfer_arith accts hn g _ c' M d _ r hM hne' hwf0 hrate0 hTpos ht
   obtain ⟨-, -, -, -, hdm, -, b1, -, -⟩ := transfer_inv accts hn g _ c' M d _ r hM hd hne' hwf0 ht
   have hv0 : c.val = some v := hv
   have e0 : ∀ a, dm { c with bal := updI c.bal d (c.bal d - amount), supply := c.supply - amount } a = dm c a := fun _ => rfl
